@@ -203,6 +203,20 @@ def k2_variances_setter(P, R):
             "computed from the clamped variances being stored",
             "the refreshed normaliser is not computed from the clamped variances being stored (raw argument or stale field)", g.lineno,
         )
+        # ... and from nothing else of the raw argument: its shape may differ from the stored (clamped, broadcast) array's
+        def _direct(e, st_, depth=0):
+            out = []
+            for n in ast.walk(e):
+                if isinstance(n, ast.Name) and isinstance(n.ctx, ast.Load):
+                    if n.id == param:
+                        out.append(n)
+                    elif depth < 3 and n.id != f.self_name and n.id not in {v_.id for _s, v_ in vs if isinstance(v_, ast.Name)}:
+                        for d in du.reaching(st_, n.id):
+                            if d.how == "assign" and d.value is not None and not any(d.stmt is s_ for s_, _ in vs):
+                                out += _direct(d.value, d.stmt, depth + 1)
+            return out
+        raw = _direct(gv, g)
+        R.check(not raw, "CACHE.K2-raw", f.key, f"self._g_norms = {src(gv)[:60]}", "no part of the normaliser is taken from the raw argument", f"part of the refreshed normaliser is computed from the raw argument `{param}` (e.g. its shape): assigned variances that are broadcast against the floors give a normaliser for another number of features", g.lineno)
 
 
 def k2b_lazy_getter(P, R):
